@@ -117,7 +117,9 @@ def concat_case(draw):
     for t in targets:
         srcs = draw(st.lists(st.sampled_from([t + '_a', t + '_b']), max_size=2, unique=True))
         fields[t] = draw(st.sampled_from([srcs, srcs, None])) if not srcs else srcs
-    target = draw(st.sampled_from([None, {'name': 'merged'}, {'name': 'merged', 'path': 'data/m.csv'}]))
+    target = draw(st.sampled_from([None, {'name': 'merged'}, {'name': 'merged', 'path': 'data/m.csv'},
+                                   # 'merge into the first / last one': the target re-uses the name of a selected resource
+                                   {'name': names[idxs[0]]}, {'name': names[idxs[-1]]}]))
     return {'op': 'concat', 'pkg': pkg, 'sel': sel, 'fields': fields, 'target': target}
 
 
@@ -132,7 +134,8 @@ def duplicate_case(draw):
             'to_end': draw(st.booleans()), 'batch': draw(st.sampled_from([1, 2, 1000, None])),
             # a later step of the same flow that edits rows in place (top-level and nested values): the copy is
             # 'an exact copy of the chosen resource' as of the duplicate step, so it receives the edit exactly once
-            'follow': draw(st.sampled_from([None, None, 'inplace']))}
+            # ... or a later step that edits the schema of only the original / only the copy
+            'follow': draw(st.sampled_from([None, None, 'inplace', 'delete_in_original', 'delete_in_copy']))}
 
 
 @st.composite
@@ -166,7 +169,8 @@ def plain_rows(draw, max_rows=4, min_rows=0):
 @st.composite
 def append_case(draw):
     pkg = draw(tagged_pkg(0, 3, names=NAMES_NO_AUTO, allow_big=False))
-    mode = draw(st.sampled_from(['iterable', 'generator', 'two_iterables', 'sources', 'sources_flow', 'load_tuple', 'rename']))
+    mode = draw(st.sampled_from(['iterable', 'generator', 'two_iterables', 'sources', 'sources_flow', 'load_tuple', 'rename',
+                                 'late_bad_item']))
     if mode == 'sources_flow':
         # upstream resources carry the automatic names, so the names of the appended ones can collide
         # (a drawn subset of the first automatic names, in order: [res_1], [res_1, res_3], [res_2] ... so that the renamed
@@ -175,6 +179,13 @@ def append_case(draw):
         pkg = draw(tagged_pkg(len(sub), len(sub), names=sub, allow_big=False)) if sub else []
         pkg.sort(key=lambda r: sub.index(r['name']))
     case = {'op': 'append', 'mode': mode, 'pkg': pkg}
+    if mode == 'late_bad_item':
+        # an appended iterable whose item number `at` (beyond the 100-row inference sample) is not a row: the run has to
+        # fail - ending the resource there would silently lose the rows behind it
+        case['n'] = draw(st.sampled_from([130, 180]))
+        case['at'] = draw(st.sampled_from([100, 101, 115, 129]))
+        case['as'] = draw(st.sampled_from(['list', 'generator']))
+        return case
     if mode == 'rename':
         if not pkg:
             pkg.append({'name': 'a', 'fields': [{'name': '_tag', 'type': 'string'}], 'rows': [{'_tag': 'a#0'}]})
@@ -258,6 +269,7 @@ def check(case, ctx):
     tables = gen.tables_of(pkg)
     classes = [op]
     reject = None
+    schema_edit = None
     big = any(len(r['rows']) > 1000 for r in pkg)
     if op == 'concat':
         try:
@@ -286,7 +298,18 @@ def check(case, ctx):
             exp_rows = tables[:si + 1] + [tables[si]] + tables[si + 1:]
         affected = [si]
         classes.append('dup:end' if case['to_end'] else 'dup:after')
-        if case.get('follow'):
+        if case.get('follow') in ('delete_in_original', 'delete_in_copy'):
+            victim = [f['name'] for f in pkg[si]['fields'] if f['name'] != '_tag']
+            if victim:
+                who = src if case['follow'] == 'delete_in_original' else tname
+                steps.append(dataflows.delete_fields([victim[-1]], resources=[who], regex=False))
+                wi = exp_names.index(who) if case['follow'] == 'delete_in_original' else \
+                    (len(exp_names) - 1 if case['to_end'] else exp_names.index(tname))
+                exp_rows = [copy.deepcopy(t) for t in exp_rows]
+                exp_rows[wi] = [{k: v for k, v in r.items() if k != victim[-1]} for r in exp_rows[wi]]
+                classes.append('dup:followed-by-schema-edit-of-one-twin')
+                schema_edit = (wi, victim[-1])
+        elif case.get('follow'):
             steps.append(inplace_edit)
             exp_rows = [copy.deepcopy(t) for t in exp_rows]   # (one deepcopy call would keep the copy aliased)
             for t in exp_rows:
@@ -304,6 +327,17 @@ def check(case, ctx):
         mode = case['mode']
         classes.append('append:' + mode)
         affected = []
+        if mode == 'late_bad_item':
+            items = [{'k': j, 'w': 'r%d' % j} if j != case['at'] else 12345 for j in range(case['n'])]
+            src_ = items if case['as'] == 'list' else (x for x in items)
+            try:
+                with quiet():
+                    ds = Flow(src_).datastream(feed(desc, tables, sequential=case.get('seq', False)))
+                    _d, out_rows_, _ = materialise(ds)
+            except Exception:
+                return Info(nontrivial=True, classes=classes + ['rejected:bad-item-beyond-the-sample'], rejected=True)
+            raise Violation('append:bad-item-accepted-rows-lost', {'rows_emitted': len(out_rows_[-1]), 'items': case['n'],
+                                                                  'bad_item_at': case['at']})
         if mode == 'rename':
             i = select(case['sel'], names)
             assert len(i) == 1
@@ -374,7 +408,11 @@ def check(case, ctx):
         if r['name'] in in_by_name and not (op == 'append' and case['mode'] in ('sources', 'sources_flow') and i >= len(names)):
             if op == 'concat' and r['name'] == (case['target'] or {}).get('name', 'concat'):
                 continue
-            if r != in_by_name[r['name']]:
+            exp_r = in_by_name[r['name']]
+            if schema_edit is not None and i == schema_edit[0]:
+                exp_r = copy.deepcopy(exp_r)
+                exp_r['schema']['fields'] = [f for f in exp_r['schema']['fields'] if f['name'] != schema_edit[1]]
+            if r != exp_r:
                 raise Violation('%s:bystander-descriptor-changed' % op, {'resource': r['name']})
     if op == 'duplicate':
         ci = exp_names.index(tname) if not case['to_end'] else len(exp_names) - 1
@@ -383,6 +421,9 @@ def check(case, ctx):
         if c['path'] != (case['target_path'] or tname + '.csv'):
             raise Violation('duplicate:copy-path', {'got': c['path']})
         c['name'], c['path'] = o['name'], o['path']
+        if schema_edit is not None and ci == schema_edit[0]:
+            o = copy.deepcopy(o)
+            o['schema']['fields'] = [f for f in o['schema']['fields'] if f['name'] != schema_edit[1]]
         if c != o:
             raise Violation('duplicate:copy-descriptor', {'got': c, 'expected': o})
     if op == 'concat':
